@@ -110,22 +110,27 @@ func (s *snap) dump(v reflect.Value, depth int) {
 		}
 		s.ptrs[p] = len(s.ptrs) + 1
 		fmt.Fprintf(&s.sb, "%s#%d{", v.Type(), s.ptrs[p])
-		type kv struct{ k, v string }
+		// visit the entries in an order that does not depend on Go's random
+		// map iteration: sort by a dump of the key that prints raw addresses
+		// for pointers (objects do not move), then assign pointer ids in
+		// that order
+		type kv struct {
+			ord  string
+			k, v reflect.Value
+		}
 		var entries []kv
 		it := v.MapRange()
 		for it.Next() {
-			ks := &snap{ptrs: s.ptrs}
-			ks.dump(it.Key(), depth+1)
-			vs := &snap{ptrs: s.ptrs}
-			vs.dump(it.Value(), depth+1)
-			entries = append(entries, kv{ks.sb.String(), vs.sb.String()})
+			entries = append(entries, kv{fmt.Sprintf("%T|%#v", it.Key().Interface(), it.Key().Interface()), it.Key(), it.Value()})
 		}
-		sort.Slice(entries, func(i, j int) bool { return entries[i].k < entries[j].k })
+		sort.Slice(entries, func(i, j int) bool { return entries[i].ord < entries[j].ord })
 		for i, e := range entries {
 			if i > 0 {
 				s.sb.WriteString(", ")
 			}
-			s.sb.WriteString(e.k + ": " + e.v)
+			s.dump(e.k, depth+1)
+			s.sb.WriteString(": ")
+			s.dump(e.v, depth+1)
 		}
 		s.sb.WriteString("}")
 	case reflect.Struct:
